@@ -434,7 +434,7 @@ class C08(core.Check):
         'effect:mute', 'effect:include', 'effect:origin', 'effect:zone-switch', 'starts-in-named-zone', 'effect:unmute-inside-branch-while-muted', 'if:bare-literal', 'if:bare-symbol', 'if:bare-negative', 'if:text-comparison', 'if:op==', 'if:op!=',
         'if:op>', 'if:op>=', 'if:op<', 'if:op<=', 'ctx:unsel:nested-in-unselected', 'ctx:unsel:earlier-branch-taken',
         'ctx:unsel:condition-false', 'numeric-vs-text-disagree', 'stray:else', 'stray:elif', 'stray:endif', 'stray:in-included-file', 'same-condition-text-before-and-after-define',
-        'source:cli', 'source:isa', 'condition:shift-operator', 'condition:alias-symbol-seen-before-its-target-is-defined',
+        'source:cli', 'source:isa', 'condition:shift-operator', 'condition:quotient-that-is-no-integer', 'condition:alias-symbol-seen-before-its-target-is-defined', 'condition:ifdef-of-a-name-that-is-a-constant-or-label-only',
         'uncompiled-label-or-origin-between-a-local-label-and-its-use']}
 
     def finish(self, g, rng, extra_tags=()):
@@ -566,7 +566,11 @@ class C08(core.Check):
                 ('SYMQ > 1 << 2', '5', True, False), ('SYMQ >= 1 << 2', '3', False, False), ('1 << SYMQ != 8', '3', False, False),
                 ('5==6', '1', False, True), ('5==5', '1', True, True), ('SYMQ==2', '2', True, True), ('SYMQ==2', '3', False, True),
                 ('SYMQ!=1', '1', False, True), ('SYMQ>=5', '4', False, True), ('SYMQ<1', '1', False, True), ('2>3', '1', False, True),
-                ('SYMQ ==2', '3', False, True), ('SYMQ== 2', '3', False, True), ('SYMQ<=0', '1', False, True), ('0!=0', '1', False, True)):
+                ('SYMQ ==2', '3', False, True), ('SYMQ== 2', '3', False, True), ('SYMQ<=0', '1', False, True), ('0!=0', '1', False, True),
+                # each side is an integer before the two are compared: a quotient is cut off toward zero first
+                ('SYMQ/2 == 3', '7', True, False), ('SYMQ/2 > 3', '7', False, False), ('SYMQ/4', '2', False, False), ('1/2', '1', False, False),
+                ('0 - SYMQ/2 == 0 - 3', '7', True, False), ('SYMQ/4 >= 3', '10', False, False), ('9/SYMQ != 4', '2', False, False),
+                ('3 == SYMQ/2', '7', True, False), ('3 < SYMQ/2', '7', False, False), ('SYMQ/3 <= 2', '8', True, False), ('(SYMQ/2)*2 == 6', '7', False, False)):
             for kind_ in ('if', 'elif'):
                 head = [f'#if {cond_txt}'] if kind_ == 'if' else ['#if 0', '.byte 9', f'#elif {cond_txt}']
                 src = [f'#define SYMQ {val}'] + head + ['.byte 3', '#else', '.byte 4', '#endif', '.byte 5']
@@ -574,7 +578,7 @@ class C08(core.Check):
                                  'argv': ['compile', '-c', fn0, 'p.asm', '-o', 'out.bin'], 'probes': ['steps', 'cond'], 'step_limit': 500000}],
                        'meta': {'model': {'kind': 'ACCEPT', 'image': bytes([3 if truth else 4, 5]).hex(), 'undefined_first': may_refuse,
                                           'why_refusable': 'a comparison written without blanks around its operator may be refused'}, 'markers': {}},
-                       'tags': ['condition:comparison-without-blanks' if may_refuse else 'condition:shift-operator', 'expect:ACCEPT']}
+                       'tags': ['condition:comparison-without-blanks' if may_refuse else ('condition:quotient-that-is-no-integer' if '/' in cond_txt else 'condition:shift-operator'), 'expect:ACCEPT']}
         # a symbol that stands for another symbol, looked at before the other one is defined (on a line of a branch that is not
         # compiled): a condition reached after the definition sees the value of that moment
         for mention in (['#ifdef C08_NEVER', '.byte WIDTH_Q', '#endif'], ['#if 0', 'ldi WIDTH_Q', '#endif'], ['#ifdef C08_NEVER', '#if WIDTH_Q == 16', '.byte 9', '#endif', '#endif'],
@@ -602,6 +606,23 @@ class C08(core.Check):
                                      'argv': ['compile', '-c', fn0, 'p.asm', '-o', 'out.bin'], 'probes': ['steps', 'cond'], 'step_limit': 500000}],
                            'meta': {'model': {'kind': 'ACCEPT', 'image': bytes([1, 2] + live_extra + ub + [5]).hex()}, 'markers': {}},
                            'tags': ['uncompiled-label-or-origin-between-a-local-label-and-its-use', 'expect:ACCEPT']}
+        # #ifdef / #ifndef look at preprocessor symbols only: a constant or a label of that name, defined in compiled code in
+        # front of the test, does not make the name a defined symbol
+        for definer in (['LIMIT_Q = 5'], ['LIMIT_Q EQU 5'], ['LIMIT_Q:', '.byte 7'], ['_limit_q = 5'], ['LIMIT_Q = 5', 'other_q = LIMIT_Q + 1']):
+            nm_ = '_limit_q' if definer[0].startswith('_') else 'LIMIT_Q'
+            lead_ = [7] if '.byte 7' in definer else []
+            for test_, truth in ((f'#ifdef {nm_}', False), (f'#ifndef {nm_}', True)):
+                for kind_ in ('if', 'nested', 'with-elif'):
+                    if kind_ == 'if':
+                        src, out_ = definer + [test_, '.byte 3', '#else', '.byte 4', '#endif', '.byte 5'], [3 if truth else 4, 5]
+                    elif kind_ == 'nested':
+                        src, out_ = definer + ['#if 1', test_, '.byte 3', '#else', '.byte 4', '#endif', '#endif', '.byte 5'], [3 if truth else 4, 5]
+                    else:
+                        src, out_ = definer + [test_, '.byte 3', '#elif 1', '.byte 6', '#else', '.byte 4', '#endif', '.byte 5'], [3 if truth else 6, 5]
+                    yield {'runs': [{'files': {fn0: text0, 'p.asm': '\n'.join(src) + '\n'},
+                                     'argv': ['compile', '-c', fn0, 'p.asm', '-o', 'out.bin'], 'probes': ['steps', 'cond'], 'step_limit': 500000}],
+                           'meta': {'model': {'kind': 'ACCEPT', 'image': bytes(lead_ + out_).hex()}, 'markers': {}},
+                           'tags': ['condition:ifdef-of-a-name-that-is-a-constant-or-label-only', 'expect:ACCEPT']}
         if tier == 'thorough':
             yield from self.sweep()
 
